@@ -2,11 +2,12 @@ CONSTANTS
   MaxN = 2
   MaxH = 2
   MaxE = 1
-  MaxP = 2
+  MaxP = 1
   MaxM = 1
   AllowArm = FALSE
   Patched = FALSE
 SPECIFICATION Spec
+VIEW FullView
 INVARIANT TypeOK
 INVARIANT RcExact
 INVARIANT RootedIffExternal
